@@ -222,6 +222,18 @@ static void gen_c15(Rng &r, Case &c, bool thorough) {
     if (thorough || N <= 64) for (int64_t n = 1; n <= N; ++n) ns.push_back(n);
     else { ns = {1, 2, 3, N - 1, N}; for (int k = 0; k < 32; ++k) ns.push_back(1 + static_cast<int64_t>(r.below(static_cast<uint64_t>(N)))); }
     for (int64_t n : ns) { FaultSpec f; f.fail_write_call = n; f.fail_errno = r.chance(1, 2) ? 5 : 28; add(f); }
+    // the destination cannot be positioned: not at all (FIFO, terminal: every lseek fails), or at one call of the save
+    // (the writer seeks back to patch the offsets and block counts it could not know in advance, and asks for its
+    // position before it pads). An index the save never reaches is one more negative control.
+    { FaultSpec f; f.fail_seek_call = 0; add(f); }
+    {
+        int64_t bound = 3 * N + 8;
+        std::vector<int64_t> sk;
+        if (thorough) for (int64_t n = 1; n <= bound; ++n) sk.push_back(n);
+        else { sk = {1, 2, 3}; for (int k = 0; k < 24; ++k) sk.push_back(1 + static_cast<int64_t>(r.below(static_cast<uint64_t>(bound)))); }
+        for (int64_t n : sk) { FaultSpec f; f.fail_seek_call = n; add(f); }
+        { FaultSpec f; f.fail_seek_call = 100000000; add(f); }
+    }
     // negative controls: faults that never fire, benign faults
     { FaultSpec f; f.byte_budget = B; add(f); }
     { FaultSpec f; f.byte_budget = B + 1 + static_cast<int64_t>(r.below(1000)); add(f); }
@@ -427,6 +439,23 @@ Case gen_case(const std::string &prop, const std::string &tier, uint64_t verif_s
                 pl.steps.push_back(st);
             }
             pl.flags &= 0xff;
+        } else if (!beyond && which != 8 && which != 11 && (index / 96) % 3 == 1) {
+            // the same content, its parameter section tuned to end just before / exactly on / just after a 512-byte block
+            // boundary (the one place where "at the limit" meets the block structure): three parameters whose descriptions
+            // (<= 255 each) take up the slack, sized after a measuring run
+            static const unsigned DELTA[] = {0, 511, 1};
+            unsigned delta = DELTA[(index / 288) % 3];
+            Plan &pl0 = c.plans[0];
+            size_t first = pl0.steps.size();
+            for (int q = 0; q < 3; ++q) { Step st; st.op = OP_PARAM; st.s = {"ALIGNMENT", "PAD" + tos(q), ""}; st.i = {1, 0, 0, -1, 1, 7}; pl0.steps.push_back(st); }
+            std::vector<uint8_t> img; std::vector<WriteRec> tr;
+            { Plan m = pl0; Step g; g.op = OP_FILL_GAPS; g.i = {1}; m.steps.push_back(g); measure(m, img, tr); }
+            RefFile rf;
+            if (ref_decode(img, rf, nullptr).empty()) {
+                unsigned x = static_cast<unsigned>((delta + 512 - rf.terminator_off % 512) % 512);
+                for (int q = 0; q < 3 && x; ++q) { unsigned d = std::min(x, 255u); pl0.steps[first + static_cast<size_t>(q)].s[2] = std::string(d, static_cast<char>('a' + q)); x -= d; }
+                pl0.tag += "&align512." + tos(delta);
+            }
         }
         Plan &pl = c.plans[0];
         { Step g; g.op = OP_FILL_GAPS; g.i = {static_cast<int64_t>(r.next() >> 1)}; pl.steps.push_back(g); }
@@ -444,6 +473,9 @@ Case gen_case(const std::string &prop, const std::string &tier, uint64_t verif_s
             gen_history(tr, tp, p);
             p.steps.push_back(saveStep(7));
             p.steps.push_back(reloadStep(-1));
+            // the read-only side of the API (getters by name) on the final object of every thread, and once mid-way
+            for (int q = 0; q < 3; ++q) { Step lk; lk.op = OP_LOOKUP; lk.i = {static_cast<int64_t>(tr.next() >> 1)}; p.steps.push_back(lk); }
+            { Step lk; lk.op = OP_LOOKUP; lk.i = {static_cast<int64_t>(tr.next() >> 1)}; p.steps.insert(p.steps.begin() + static_cast<long>(p.steps.size() / 2), lk); }
             c.plans.push_back(p);
         }
         c.sched.seed = mix(c.run_seed, 4242);
@@ -476,6 +508,18 @@ Case gen_case(const std::string &prop, const std::string &tier, uint64_t verif_s
         gen_c16_alts(r, c, img, tr, thorough);
     }
     if (gp == "C14" && prop != "C19") c.epochs = 3;
+    if (prop != "C19" && prop != "C16" && prop != "C15") {
+        // most saves in real use go over an existing file: one save in three meets the previous save of that path or a
+        // stale file of another size (the plan says which: i1 of the SAVE step)
+        for (Plan &pl : c.plans)
+            for (Step &st : pl.steps)
+                if (st.op == OP_SAVE && st.i.size() == 1) {
+                    unsigned k = static_cast<unsigned>(r.below(6));
+                    int64_t len = 600 + static_cast<int64_t>(r.below(40000));
+                    if (k == 0) st.i.push_back(-1);
+                    else if (k == 1) st.i.push_back(len);
+                }
+    }
     if (prop == "C19" && !c.plans.empty() && r.chance(1, 4)) {
         // rates at the edges of the float -> int conversions the header updater performs
         // (point rate only, large side only: a tiny or non-finite point rate asks for millions of sub-frames per frame)
